@@ -35,4 +35,18 @@ theorem C13_gen_facts_eval : ∀ R ∈ RepTy.all,
     classFacts env quantity R = transparentFacts R ∧
     classFacts env quantityPoint R = transparentFacts R := by decide
 
+/-- **Default construction yields `R{}`** — the clause on its own, for the classes as they are in
+/repo: a default-initialised `Quantity<U, R>` / `QuantityPoint<U, R>` (`T t;`, the weakest form; `T{}`
+and `T()` zero-fill first or run the same constructor) holds `R{}` in its only scalar sub-object, for
+every one of the 11 reps.  Reading it back through `.in(unit)` returns those bits (`C13_roundtrip`). -/
+theorem C13_default_construction (R : RepTy) (hR : R ∈ RepTy.all) :
+    (classFacts env quantity R).dflt = Content.zero ∧ (classFacts env quantityPoint R).dflt = Content.zero := by
+  have h := C13_layout R hR
+  exact ⟨by rw [h.1]; rfl, by rw [h.2]; rfl⟩
+
+/-- Non-vacuity / sensitivity: without the default member initialiser the same evaluation says
+`indeterminate` (so `zero` above is a fact about the extracted source, not about the evaluator). -/
+example : (classFacts env { quantity with fields := [⟨"value_", .rep, .priv, .absent⟩] } (.flt .f64)).dflt
+    = Content.indeterminate := by decide
+
 end Au
